@@ -3,6 +3,7 @@
   promises (`tp_succ`), and the induction on the fuel of the search (`t_all`).
 -/
 import PrologVerif.Proofs.RefineDfsNeg
+import PrologVerif.Proofs.RefineDfsWrap
 namespace PrologVerif.Refine
 open PrologVerif PrologVerif.VM PrologVerif.DecompileCompile PrologVerif.Activation
   PrologVerif.RefineITree PrologVerif.RefineRobinson PrologVerif.VMScoped
@@ -131,6 +132,65 @@ theorem tp_succ {k : Nat} (ihA : TAk fl mo tmpl max prog F k) (ihD : TDk fl mo t
         hok (stOK_tick hst) hlt with hill | hm
       · exact Or.inl hill
       · exact Or.inr (hm.from (Nat.le_refl _))
+  | wrap hans hid0 hshape hsim hs =>
+    rename_i id its cl c g K env R q nv n Fs
+    cases its with
+    | nil =>
+      -- the wrapper clause alone
+      simp only [List.map_nil, List.nil_append] at hd hgood
+      by_cases hid : (id ≠ 0 ∧ (lv.map Prod.fst).contains id)
+      · rw [ill_id' rfl hid] at hd
+        simp only [Option.some.injEq, Prod.mk.injEq] at hd
+        exact Or.inl hd.1.symm
+      · rw [nocut' rfl hid rfl] at hd
+        have hf : afterChild ({ ({ id := id, delayed := [Thunk.clause cl (argList g) K env id] } : Pr) with cutParent := none }) =
+            ({ id := id, delayed := [] } : Pr) := by
+          simp [afterChild]
+        rw [hf] at hd
+        have hidn : id ∉ lv.map Prod.fst := by
+          intro hmem
+          exact hid ⟨hid0, by simpa using hmem⟩
+        cases k with
+        | zero => simp [dfsAlts] at hd
+        | succ k0 =>
+        have hgA : GoodA fl F (k0 + 1) (Thunk.clause cl (argList g) K env id) { id := id, delayed := [] }
+            (lv.map Prod.fst) (tick m) := by
+          intro x mx hx
+          rw [← hf] at hx
+          exact hgood x mx (.nocut (ts := []) rfl hid rfl hx)
+        obtain ⟨N, σ, π, D, G, hN, hW, hcg, hgr, hco, hq', hgD, _, _, hwr, hwb⟩ := hsim
+        rcases tw_last (ihPall k0 (Nat.le_succ k0)) hprog hd hgA hans hid0 hidn hshape
+          ⟨N, σ, π, D, G, hN, hW, hcg, hgr, hco, hq', hgD, hwr, hwb⟩ hs hok (stOK_tick hst) hlt with hill | hm
+        · exact Or.inl hill
+        · exact Or.inr (hm.from (Nat.le_refl _))
+    | cons it its' =>
+      simp only [List.map_cons, List.cons_append] at hd hgood
+      by_cases hid : (id ≠ 0 ∧ (lv.map Prod.fst).contains id)
+      · rw [ill_id' rfl hid] at hd
+        simp only [Option.some.injEq, Prod.mk.injEq] at hd
+        exact Or.inl hd.1.symm
+      · rw [nocut' rfl hid rfl] at hd
+        have hf : afterChild ({ ({ id := id, delayed := Thunk.clause it.1 (argList g) K env id ::
+              (its'.map (fun it => Thunk.clause it.1 (argList g) K env id) ++ [Thunk.clause cl (argList g) K env id]) } : Pr)
+              with cutParent := none }) =
+            ({ id := id, delayed := its'.map (fun it => Thunk.clause it.1 (argList g) K env id) ++
+              [Thunk.clause cl (argList g) K env id] } : Pr) := by
+          simp [afterChild]
+        rw [hf] at hd
+        cases k with
+        | zero => simp [dfsAlts] at hd
+        | succ k0 =>
+        have hgA : GoodA fl F (k0 + 1) (Thunk.clause it.1 (argList g) K env id)
+            { id := id, delayed := its'.map (fun it => Thunk.clause it.1 (argList g) K env id) ++
+              [Thunk.clause cl (argList g) K env id] } (lv.map Prod.fst) (tick m) := by
+          intro x mx hx
+          rw [← hf] at hx
+          exact hgood x mx (.nocut (ts := its'.map (fun it => Thunk.clause it.1 (argList g) K env id) ++
+            [Thunk.clause cl (argList g) K env id]) rfl hid rfl hx)
+        rcases tw_dead (ihPall k0 (Nat.le_succ k0)) hd hgA hans hid0 hshape hsim hs hok (stOK_tick hst) hlt with
+          hill | hm
+        · exact Or.inl hill
+        · exact Or.inr (hm.from (Nat.le_refl _))
   | neg hans hid0 hfl hsim hs =>
     rename_i id g c K env R q nv n l
     by_cases hid : (id ≠ 0 ∧ (lv.map Prod.fst).contains id)
